@@ -17,13 +17,20 @@ THEOREMS = ['Fsic.C07.' + n for n in [
     'fortran_index_rewrite_cell', 'kind_safe_agree', 'kind_safe_assign_agree', 'full_agree_false_at_half',
     'full_agree_false_at_tenth', 'evaluate_agree', 'fortran_loop_eq_python_loop', 'fortran_solveT_eq_python',
     'fortran_check_rows_aligned', 'fortran_solve_eq_fold', 'fortran_solve_eq_python_solveList',
-    'fortran_solve_eq_python_solve', 'error_codes_consistent']]
+    'fortran_solve_eq_python_solve', 'fortran_solve_frame', 'fortran_later_periods_untouched',
+    'error_codes_consistent']]
 RULE = ('programs from an own grammar (1-6 equations, shared variables, parameters {a}, errors <e>, lags/leads up to 3, '
         'integer and decimal literals, + - * / ** unary minus parentheses exp log max min abs, long sums over dozens of '
         'variables that need continuation lines) plus a fixed list of designed programs (convergence exactly at tol, '
         'offset copies, each known defect); per program random finite data and a sample of the call lattice: '
         '_evaluate(t), solve_t(t, min_iter, max_iter, tol, offset, failures, errors), solve(start, end, ...) with '
-        'positive/negative/infeasible/out-of-range t.  distinct = distinct (script, data, call); non-trivial = the '
+        'positive/negative/infeasible/out-of-range t; operation HISTORIES (2-5 steps on the same pair of instances: solve '
+        'then solve with too few iterations / an out-of-span offset / failures ignore-then-raise, solve_t then solve, '
+        'copy() between calls; full state compared after every step and every step tied to the model from the record '
+        'the previous step left); every program also rendered under other script layouts (harness/gen_scripts.py: '
+        'wrapped multi-line equations with blank/comment lines inside, comments, spacing variants, random layouts): must '
+        'build, give the same symbols, Fortran text made only of comments / predicted statements / continuations, compile, '
+        'and give bit-identical results to the plain layout.  distinct = distinct (script, data, call); non-trivial = the '
         'Fortran module compiled and the call evaluated at least one equation')
 TRUSTED = ['gfortran 12 (-O0) and what its generated code computes in floating point; libm (exp, log, pow)',
            'harness/fortran_ctypes.py standing in for the f2py extension module (same call signatures, column-major '
@@ -36,7 +43,7 @@ ASSUMPTIONS = ['values stay finite (the property text); non-finite data is used 
                'non-empty span of integer labels 0..n-1; -n <= t < n except where stated']
 
 META = {
-    "text": "PARTIAL. Proved in Lean for the model M5 of fsic/fortran.py (as repaired by c07-fix1..4): the Fortran numbering is 1 + the position in the Python class's NAMES; the regex rewrite turns NAME[t+k] into solved_values(i, index+k) (character-level scanner; for whole rendered equations the rewritten text is the renumbered tree) and with index = t+1 that is the same storage cell for every offset; the convergence rows the wrapper passes (names.index(x)+1) are the cells Python's check reads; for every expression satisfying the decidable predicate KindSafe and every interpretation of the real operators (two real kinds with a widening map) the Fortran denotation of the rewritten expression equals the Python denotation, hence a whole evaluate pass agrees; on finite data the template's solve_t loop equals M1's Python loop, the whole FortranEngine.solve_t equals BaseModel.solve_t (world and result, every option set with documented strings incl. max_iter<=0 and infeasible periods), the template's solve is a fold of solve_t with early exit, and FortranEngine.solve equals SolverMixin.solve (period loop, start/end resolution); the error codes the wrapper dispatches on are the integers declared in the template (decide over reflected tables). The statement about expressions without KindSafe is FALSE of the current code and its negation is proved at 1/2 (integer division) and 0.1 (single-precision literal). NOT covered by the proof: what gfortran's generated code computes in floating point, libm (exp/log/pow and real**integer agree only to rounding), and the ctypes shim that stands in for f2py; these are exercised only by the differential check (compiled module vs Python class on generated programs and data).",
+    "text": "PARTIAL. Proved in Lean for the model M5 of fsic/fortran.py (as repaired by c07-fix1..4): the Fortran numbering is 1 + the position in the Python class's NAMES; the regex rewrite turns NAME[t+k] into solved_values(i, index+k) (character-level scanner; for whole rendered equations the rewritten text is the renumbered tree) and with index = t+1 that is the same storage cell for every offset; the convergence rows the wrapper passes (names.index(x)+1) are the cells Python's check reads; for every expression satisfying the decidable predicate KindSafe and every interpretation of the real operators (two real kinds with a widening map) the Fortran denotation of the rewritten expression equals the Python denotation, hence a whole evaluate pass agrees; on finite data the template's solve_t loop equals M1's Python loop, the whole FortranEngine.solve_t equals BaseModel.solve_t (world and result, every option set with documented strings incl. max_iter<=0 and infeasible periods), the template's solve is a fold of solve_t with early exit, FortranEngine.solve equals SolverMixin.solve (period loop, start/end resolution), and whatever the engine returns the wrapper's solve writes status/iterations only at the positions handed over and at none behind the entry that raises (records of earlier calls survive); the error codes the wrapper dispatches on are the integers declared in the template (decide over reflected tables). The statement about expressions without KindSafe is FALSE of the current code and its negation is proved at 1/2 (integer division) and 0.1 (single-precision literal). NOT covered by the proof: what gfortran's generated code computes in floating point, libm (exp/log/pow and real**integer agree only to rounding), and the ctypes shim that stands in for f2py; these are exercised only by the differential check (compiled module vs Python class on generated programs and data).",
     "design_ref": "DESIGN.md §5 M5, §6 C07, §7 row 16",
     "note": "Trusted: Lean kernel; axioms propext/Classical.choice/Quot.sound; gfortran 12, libm, the gfortran+ctypes shim replacing f2py (f2py cannot build here); the correspondence harness, which ties the model to the code on generated programs only. Values are compared bit-exactly where only + - * / on doubles are involved, within 4 ulp for a single libm result and 1e-12 relative to max(1,|v|) where libm results chain within a pass. Open known findings: int-division, int-power-negative-exponent, single-precision-literal, single-precision-arithmetic, int-arg-intrinsic-compile, infeasible-period-evaluate. Fixed (a recurrence is a new violation): convergence-variables-zero-based, max-iter-zero-engine-error, infeasible-period-mismatch, solve-continues-after-offset-error.",
     "technique": "Lean 4 proof (structural induction on expressions, on the iteration fuel and on the period list; decide over reflected code tables) + differential check of gfortran-compiled modules against the Python class"
@@ -518,7 +525,7 @@ def module_parts(text):
 # ---------------------------------------------------------------------------------------------------------------
 # requests for the Lean driver
 
-def model_payload(prog, symbols, n, data, call, check):
+def model_payload(prog, symbols, n, data, call, check, record=None):
     endo, exo, par, err = name_lists(symbols)
     T = fsic.parser.Type
     sym = [s for s in symbols if s.type not in (T.FUNCTION, T.KEYWORD, T.VERBATIM)]
@@ -542,7 +549,8 @@ def model_payload(prog, symbols, n, data, call, check):
             'eqs': [{'lhs': eq['lhs'], 'rhs': eq['rhs']} for eq in sorted(prog['eqs'], key=lambda q: endo.index(q['lhs']))],
             'lits': [{'text': k, 'r4': v[0], 'r8': v[1], 'm': v[2], 'e': v[3]} for k, v in sorted(lits.items())],
             'symlags': [int(s.lags) for s in sym], 'symleads': [int(s.leads) for s in sym],
-            'n': n, 'vals': [data[x] for x in names], 'call': call}
+            'n': n, 'vals': [data[x] for x in names], 'call': call,
+            **({'status': record[0], 'iters': record[1]} if record else {})}
 
 
 def obs_str(o):
@@ -563,6 +571,137 @@ def canon_model_str(s):
         return s
     rows = [','.join(str(canon_bits(int(b))) for b in row.split(',') if b) for row in parts[3].split(';')]
     return '|'.join(parts[:3] + [';'.join(rows)])
+
+
+# ---------------------------------------------------------------------------------------------------------------
+# operation histories: several calls on the SAME pair of instances, full state compared after every call
+
+def run_history(cls, n, data, steps):
+    """Observations after every step; a step is a call dict or {'op': 'copy'} (continue on `m.copy()`)."""
+    m = make_instance(cls, n, data)
+    obs = []
+    for st in steps:
+        if st.get('op') == 'copy':
+            with warnings.catch_warnings():
+                warnings.simplefilter('ignore')
+                try:
+                    m = m.copy()
+                    tag = 'copied'
+                except Exception as e:  # noqa: BLE001
+                    tag = exc_tag(e)
+        else:
+            tag = do_call(m, st)
+        obs.append(snapshot(m, tag))
+    return obs
+
+
+def random_histories(rng, n, lags, leads, count):
+    ok = [p for p in range(n) if feasible(p, n, lags, leads)]
+    if not ok:
+        return []
+    good = lambda **kw: mkopts(**{**dict(min_iter=0, max_iter=100, tol=1e-9, failures='ignore'), **kw})  # noqa: E731
+    few = rng.choice([1, 2, 3])
+    t1, t2 = rng.choice(ok), rng.choice(ok)
+    off = rng.choice([-1, 1, -2, 2, n, -n])
+    er = rng.choice(['raise', 'skip', 'ignore', 'replace'])
+    H = [
+        # solve, then solve with too few iterations and failures='raise': stops at the first period, the rest keep their record
+        [{'call': 'solve', 'opts': good()}, {'call': 'solve', 'opts': good(max_iter=few, tol=1e-14, failures='raise')}],
+        # solve, then solve with an offset that leaves the span at one end
+        [{'call': 'solve', 'opts': good()}, {'call': 'solve', 'opts': good(offset=off, errors=er)}],
+        # failures='ignore' then 'raise' with the same few iterations
+        [{'call': 'solve', 'opts': good(max_iter=few, tol=1e-14)},
+         {'call': 'solve', 'opts': good(max_iter=few, tol=1e-14, failures='raise')}],
+        # solve_t then solve
+        [{'call': 'solve_t', 't': t1 if rng.random() < 0.5 else t1 - n, 'opts': good(max_iter=few)}, {'call': 'solve', 'opts': good()},
+         {'call': 'solve', 'start': t2, 'opts': good(max_iter=1, tol=1e-14, failures='raise')}],
+        # copy() between calls
+        [{'call': 'solve', 'opts': good()}, {'op': 'copy'},
+         {'call': 'solve_t', 't': t2, 'opts': good(max_iter=1, tol=1e-14, failures='raise')}, {'op': 'copy'},
+         {'call': 'solve', 'start': min(t1, t2), 'end': max(t1, t2), 'opts': good(offset=rng.choice([0, -1, 1]), errors=er)}],
+    ]
+    # free-form: 2-4 random calls with copies sprinkled in
+    steps = []
+    for c in random_calls(rng, n, lags, leads, {'evaluate': 0, 'solve_t': 2, 'solve': 2})[:rng.choice([2, 3, 4])]:
+        steps.append(c)
+        if rng.random() < 0.3:
+            steps.append({'op': 'copy'})
+    rng.shuffle(steps)
+    H.append(steps)
+    if count >= len(H):
+        return H
+    keep = H[:3] + rng.sample(H[3:], max(0, count - 3))
+    return keep[:count]
+
+
+# ---------------------------------------------------------------------------------------------------------------
+# script layouts (harness/gen_scripts.py) and the shape of the generated Fortran text
+
+def to_gs(e, env):
+    """This module's expression as a gen_scripts AST.  `(-x)` keeps its parentheses (a call with an empty function
+    name), so both languages keep reading the same tree."""
+    import gen_scripts as gs
+    k = e[0]
+    if k == 'int':
+        return gs.Num(str(e[1]))
+    if k == 'dec':
+        return gs.Num(e[1])
+    if k == 'var':
+        kind = {'v': 'var', 'p': 'param', 'e': 'error'}[env[e[1]]]
+        return gs.Term(kind, e[1], e[2] if e[2] else None)
+    if k == 'neg':
+        return gs.Call('', (gs.Un('-', to_gs(e[1], env)),))
+    if k == 'bin':
+        return gs.Bin(fg.OPS[e[1]][0], to_gs(e[2], env), to_gs(e[3], env))
+    if k == 'fn1':
+        return gs.Call(e[1], (to_gs(e[2], env),))
+    return gs.Call(e[1], (to_gs(e[2], env), to_gs(e[3], env)))
+
+
+def layout_scripts(prog, rng, names):
+    """[(layout name, script text)] for the same equations under other layouts."""
+    import gen_scripts as gs
+    gprog = gs.Program([gs.Equation(gs.Term('var', eq['lhs'], None), to_gs(eq['rhs'], prog['env'])) for eq in prog['eqs']])
+    out = []
+    for name in names:
+        if name == 'random':
+            L = gs.random_layout(rng)
+            L.call_space = ''   # the empty-name call that stands for a parenthesis must stay `(`
+        else:
+            L = gs.catalogue_layout(name, rng)
+        out.append((name, gs.render(gprog, L)))
+    return out
+
+
+def stray_lines(text):
+    """Physical lines of the generated Fortran that are neither blank, a comment, a line of FORTRAN_TEMPLATE, a
+    declaration/statement that starts where one is expected, nor a continuation of one.  Looked at: the header above
+    `module structure` (comments only) and the equations block of `evaluate` (comments, assignments to
+    `solved_values(…)`, their `&` continuations)."""
+    bad = []
+    head = text[:text.index('module structure')]
+    for line in head.split('\n'):
+        if line.strip() and not line.lstrip().startswith('!'):
+            bad.append(line)
+    i = text.index('solved_values = initial_values')
+    a = text.index('  ! ----', i)
+    b = text.index('  ! ----', a + 10)
+    cont = False
+    for line in text[text.index('\n', a) + 1:b].split('\n'):
+        st = line.strip()
+        if not st:
+            continue
+        if st.startswith('!'):
+            if cont:
+                bad.append(line)
+            continue
+        if cont:
+            if not st.startswith('&'):
+                bad.append(line)
+        elif not re.match(r'solved_values\(\d+, index\)\s*=', st):
+            bad.append(line)
+        cont = st.endswith('&')
+    return bad
 
 
 # ---------------------------------------------------------------------------------------------------------------
@@ -758,6 +897,11 @@ def process_program(job):
         calls = prog.get('designed_calls') or random_calls(rng, n, lags, leads, budget)
         check = list(P.CHECK)
         model_ok = (not oracle_only and not prog['libm'] and 'powi' not in prog['unsafe'] and not prog.get('loose'))
+        bad = stray_lines(text)
+        if bad:
+            out['violations'].append({'key': 'fortran-text-stray-line', 'case': base_case,
+                                      'what': f'generated Fortran contains lines that are neither comment, statement nor continuation: {bad[:3]}'})
+        plain_obs = []
         for call in calls:
             case = dict(base_case, n=n, data=data, call=call, ast=prog['eqs'], env=prog['env'])
             Fo = run_call(F, n, data, call)
@@ -767,6 +911,8 @@ def process_program(job):
                     out['model'].append((model_payload(prog, symbols, n, data, call, check), obs_str(Fo), None, case, prog['unsafe']))
                 continue
             Po = run_call(P, n, data, call)
+            if len(plain_obs) < 6:
+                plain_obs.append((call, Fo, Po))
             cache = {}
 
             def twin_fn(c=None):
@@ -802,6 +948,84 @@ def process_program(job):
                          (periods is not None and all(feasible(p, n, lags, leads) for p in periods)))
                 out['model'].append((model_payload(prog, symbols, n, data, call, check), obs_str(Fo),
                                      obs_str(Po) if p_tie else None, case, prog['unsafe']))
+        if not prog.get('nonfinite'):
+            defects = [k for k in prog['unsafe'] if k != 'powi']
+            # ---- operation histories (exact comparison: arithmetic-only programs without a known defect) ----------
+            if not defects and not prog['libm'] and 'powi' not in prog['unsafe']:
+                for steps in random_histories(rng, n, lags, leads, budget.get('histories', 4)):
+                    Fh, Ph = run_history(F, n, data, steps), run_history(P, n, data, steps)
+                    pre = ('-' * n, [-1] * n, data)
+                    for i, (st, fo, po) in enumerate(zip(steps, Fh, Ph)):
+                        count('history-step:' + (st.get('call') or 'copy'))
+                        case = dict(base_case, n=n, data=data, history=steps, step=i, ast=prog['eqs'], env=prog['env'])
+                        out['cases'].append((json.dumps([prog['script'], data, steps[:i + 1]], sort_keys=True), True))
+                        if not all_finite(po) or po['tag'] == 'SolutionError' or 'E' in po['status']:
+                            count('skipped:history-non-finite')
+                            break
+                        if not agree(fo, po, False, True):
+                            count('differs:engine-mismatch:history')
+                            out['violations'].append({'key': 'engine-mismatch:history', 'case': case, 'what': (
+                                f"after step {i} of {steps}: Fortran {fo['tag']} status {fo['status']} iterations "
+                                f"{fo['iters']} vs Python {po['tag']} status {po['status']} iterations {po['iters']}; "
+                                f"max value distance {max_ulp(fo, po)} ulp")})
+                            break
+                        count('agree:history-step')
+                        if model_ok and 'call' in st and all_finite(fo) and (st['call'] != 'solve_t' or -n <= st['t'] < n):
+                            d0 = dict(zip(names, pre[2])) if not isinstance(pre[2], dict) else pre[2]
+                            out['model'].append((model_payload(prog, symbols, n, d0, st, check, record=(pre[0], pre[1])),
+                                                 obs_str(fo), obs_str(po), case, prog['unsafe']))
+                        pre = (po['status'], po['iters'], po['vals'])
+            # ---- the same equations under other script layouts ---------------------------------------------------
+            if not prog.get('loose') and plain_obs:
+                plain_syms = [(s_.name, s_.type.name, s_.lags, s_.leads) for s_ in symbols]
+                lay = budget.get('layouts', ['wrapped', 'wrapped_blank', 'random'])
+                if len(lay) > 4 and idx % 4:   # thorough: the whole catalogue on every fourth program
+                    lay = ['wrapped', 'wrapped_blank', 'comments', 'random']
+                for lname, script_v in layout_scripts(prog, rng, lay):
+                    vcase = {'script': script_v, 'tag': prog.get('tag', 'random'), 'layout': lname, 'plain': prog['script']}
+                    count('layout:' + lname)
+                    out['cases'].append((json.dumps([script_v, 'layout']), True))
+                    lwork = os.path.join(work, 'layout')
+                    shutil.rmtree(lwork, ignore_errors=True)
+                    try:
+                        sym_v, P_v, F_v, text_v, log_v = build_classes({'script': script_v}, lwork)
+                    except CodegenError as e:
+                        out['violations'].append({'key': 'codegen-raises', 'what': f'layout {lname}: {e}', 'case': vcase})
+                        continue
+                    except Exception as e:  # noqa: BLE001
+                        out['violations'].append({'key': 'layout-rejected', 'case': vcase, 'what': (
+                            f'the plain layout of these equations builds, layout {lname} does not: {type(e).__name__}: {str(e)[:200]}')})
+                        continue
+                    if [(s_.name, s_.type.name, s_.lags, s_.leads) for s_ in sym_v] != plain_syms:
+                        out['violations'].append({'key': 'layout-changes-symbols', 'case': vcase,
+                                                  'what': f'layout {lname} gives other symbols than the plain layout'})
+                        continue
+                    bad = stray_lines(text_v)
+                    if bad:
+                        out['violations'].append({'key': 'fortran-text-stray-line', 'case': vcase, 'what': (
+                            f'layout {lname}: generated Fortran contains lines that are neither comment, statement nor '
+                            f'continuation: {bad[:3]}')})
+                    if F_v is None:
+                        if F is not None:
+                            first = [l for l in log_v.splitlines() if 'Error' in l][:2]
+                            out['violations'].append({'key': 'does-not-compile', 'case': vcase, 'what': (
+                                f'layout {lname}: generated Fortran does not compile (the plain layout does): {first}')})
+                        continue
+                    T_ = fsic.parser.Type
+                    symv = [s_ for s_ in sym_v if s_.type not in (T_.FUNCTION, T_.KEYWORD, T_.VERBATIM)]
+                    out.setdefault('texts', []).append({
+                        'idx': idx, 'endo': endo, 'exo': exo, 'par': par, 'err': err,
+                        'equations': [s_.equation for s_ in sym_v if s_.type == T_.ENDOGENOUS and s_.equation is not None],
+                        'symlags': [int(s_.lags) for s_ in symv], 'symleads': [int(s_.leads) for s_ in symv],
+                        'impl': module_parts(text_v), 'script': script_v})
+                    for call, Fo, Po in plain_obs[:3]:
+                        fv, pv = run_call(F_v, n, data, call), run_call(P_v, n, data, call)
+                        if not (same_control(fv, Fo) and max_ulp(fv, Fo) == 0 and same_control(pv, Po) and max_ulp(pv, Po) == 0):
+                            out['violations'].append({'key': 'layout-changes-result', 'case': dict(vcase, n=n, data=data, call=call),
+                                                      'what': f'layout {lname}, {call}: results differ from the plain layout'})
+                            break
+                    else:
+                        count('agree:layout')
     except Exception as e:  # noqa: BLE001
         out['notes'].append('worker error: ' + ''.join(traceback.format_exception(type(e), e, e.__traceback__))[-1500:])
         out['error'] = True
@@ -879,7 +1103,11 @@ def gen_programs(ctx, n_random):
 def run(ctx, rep):
     quick = ctx.tier == 'quick'
     n_random = (70 if quick else 1500) * ctx.scale
-    budget = {'evaluate': 5, 'solve_t': 12, 'solve': 5} if quick else {'evaluate': 6, 'solve_t': 16, 'solve': 8}
+    budget = ({'evaluate': 5, 'solve_t': 12, 'solve': 5, 'histories': 4, 'layouts': ['wrapped', 'wrapped_blank', 'random']}
+              if quick else
+              {'evaluate': 6, 'solve_t': 16, 'solve': 8, 'histories': 6,
+               'layouts': ['tight', 'wide', 'brace_spaces', 'index_spaces', 'explicit_zero', 'plus_sign', 'call_space',
+                           'paren_space', 'wrapped', 'wrapped_blank', 'comments', 'blank_lines', 'random', 'random']})
     progs = gen_programs(ctx, n_random)
     jobs = [(i, p, f'{ctx.prop}:{ctx.seed}:prog:{i}', budget, ctx.oracle_only) for i, p in enumerate(progs)]
     results = run_jobs(jobs, min(ctx.workers, 16), 900 if quick else 3600)
@@ -900,6 +1128,7 @@ def run(ctx, rep):
             rep.__dict__.setdefault('fobs', []).extend(out['fobs'])
         if out['text'] is not None:
             text_reqs.append(out['text'])
+        text_reqs += out.get('texts', [])
         model_reqs += out['model']
         if out['cases'] and len(rep.samples) < 6 and out['idx'] % 7 == 0:
             rep.samples.append({'script': progs[out['idx']]['script'][:300], 'calls': len(out['cases'])})
@@ -981,9 +1210,44 @@ def _replay_here(case):
             print('  build_fortran_definition raised ' + str(e))
             rep.violate('codegen-raises', str(e), case)
             return lines, viol
+        except Exception as e:  # noqa: BLE001
+            if 'plain' in case:
+                print('  the layout variant does not build: ' + repr(e)[:200])
+                rep.violate('layout-rejected', repr(e)[:200], case)
+                return lines, viol
+            raise
         if F is None:
             print('  generated Fortran does not compile: ' + str([l for l in log.splitlines() if 'Error' in l][:2]))
             rep.violate('does-not-compile', 'compile error', case)
+            return lines, viol
+        bad = stray_lines(text)
+        if bad:
+            print('  stray lines in the generated Fortran: ' + str(bad[:3]))
+            rep.violate('fortran-text-stray-line', str(bad[:3]), case)
+        if 'history' in case:
+            n, data, steps = case['n'], case['data'], case['history']
+            Fh, Ph = run_history(F, n, data, steps), run_history(P, n, data, steps)
+            for i, (st, fo, po) in enumerate(zip(steps, Fh, Ph)):
+                print(f'  step {i} {st}')
+                print('    fortran: ' + obs_str(fo)[:200])
+                print('    python : ' + obs_str(po)[:200])
+                if not all_finite(po) or po['tag'] == 'SolutionError' or 'E' in po['status']:
+                    break
+                if not agree(fo, po, False, True):
+                    rep.violate('engine-mismatch:history', f'after step {i}', case)
+                    break
+            return lines, viol
+        if 'plain' in case and 'call' in case:   # a layout variant whose results differed from the plain layout
+            work2 = tempfile.mkdtemp(prefix='fsic-c07-')
+            try:
+                _, P0, F0, _, _ = build_classes({'script': case['plain']}, work2)
+                n, data, call = case['n'], case['data'], case['call']
+                fv, pv = run_call(F, n, data, call), run_call(P, n, data, call)
+                f0, p0 = run_call(F0, n, data, call), run_call(P0, n, data, call)
+                if not (same_control(fv, f0) and max_ulp(fv, f0) == 0 and same_control(pv, p0) and max_ulp(pv, p0) == 0):
+                    rep.violate('layout-changes-result', 'results differ from the plain layout', case)
+            finally:
+                shutil.rmtree(work2, ignore_errors=True)
             return lines, viol
         if 'call' not in case:
             print('  compiles')
